@@ -4,7 +4,7 @@ M    TLC (MC_Lexer): the small-step whitespace filter with a carried trim flag (
      Out(src), written from the statement, on every segment sequence up to MaxLen.
      (MC_Lexer_pinned.cfg is the filter as it was in the pinned tree: TLC gives the 3-segment counterexample.)
 S→I  every sequence is concretised (whitespace runs, cores with partial delimiters / multi-byte characters
-     sharing bytes with delimiters, raw bodies full of delimiters) under three delimiter sets and rendered;
+     sharing bytes with delimiters, raw bodies full of delimiters) under four delimiter sets and rendered;
      oracle: the concatenation of the parts Out(src) keeps, byte for byte; the three spellings must agree."""
 import json, random
 import vp
@@ -13,6 +13,7 @@ DSETS = {
     "default": ["{%", "%}", "{{", "}}", "{#", "#}"],
     "ascii": ["<%", "%>", "<<", ">>", "<#", "#>"],
     "multibyte": ["«", "»", "¿", "¡", "§", "¶"],      # all 2-byte characters with lead byte 0xC2
+    "distinct": ["<%", "%>", "[[", "]]", "(#", "#)"],   # three start delimiters with three different first bytes
 }
 WS = [" ", "\n", "\t", "  \n ", "\r\n", " \t ", "\u00a0", " \u2003\n", "\u3000 ", "\u0085", "\x0b\x0c"]     # Unicode White_Space, as str::trim
 CORES = ["x", "a{b", "%}", "}}", "#}", "a-b", "-", "é", "©ë", "世", "x}", "{ y", "%", "a # b", "}-", "\U0001F600", "a b", "->", "\u200b", "\u200bx\ufeff"]   # zero-width space / BOM are NOT whitespace
@@ -60,7 +61,7 @@ def run(tier):
     C.add_tlc(r, "MC_Lexer (Filt refines Out), sequences <= %d segments" % maxlen)
     C.cov["exhaustive"] = True
     C.cov["rule"] = ("all well-formed segment sequences of length <= %d over 33 segment shapes (5 text shapes, 4 marker combinations for "
-                     "expressions/tags/comments, 16 for raw blocks), each concretised %d times under 3 delimiter sets; non-trivial = distinct "
+                     "expressions/tags/comments, 16 for raw blocks), each concretised %d times under 4 delimiter sets; non-trivial = distinct "
                      "sequence containing at least one `-` marker or raw/comment segment" % (maxlen, variants))
     vecs = r.tags["VEC"]
     rnd = random.Random(vp.seed() * 7919 + 17)
